@@ -12,7 +12,8 @@ LEVEL = 'exploration'
 RULE = (
     'Triples of input files: rainfall on a uniform step (600-7200 s); water '
     'level on the same, a finer (step/2,/3,/4), a coarser (x2, x3) or an '
-    'unaligned step, starting before or after the rain record, with 0-3 '
+    'unaligned step (ET optionally with extra rows between grid instants), '
+    'starting before or after the rain record, with 0-3 '
     'gaps anywhere (including at the ends and gaps leaving a one-sample '
     'stretch); values on the dyadic lattice or arbitrary floats; rows of each '
     'file shuffled in 30% of cases; five time zones; 20% of cases through '
@@ -68,6 +69,13 @@ def cases(draw):
     lo = min(0, start // dt) - 2
     hi = max(n, (start + count * w) // dt) + 3
     et = [[i, draw(st.integers(0, 64)) / 64.0] for i in range(lo, hi)]
+    if draw(st.integers(0, 3)) == 0:
+        # ET logged on a finer step than rainfall (or a stray extra record):
+        # rows between grid instants belong to no grid step
+        extra_at = draw(st.lists(st.integers(lo, hi - 2), min_size=1,
+                                 max_size=6, unique=True))
+        et += [[i + 0.5, draw(st.integers(0, 64)) / 64.0] for i in extra_at]
+        et.sort()
     case = {'dt': dt, 't0': t0, 'tz': tz, 'rain': rain, 'et': et, 'wl': wl,
             'mode': mode}
     if draw(st.integers(0, 9)) < 2:
